@@ -5,6 +5,9 @@ import Sftp.Driver.Codec
 import Sftp.Driver.C16
 import Sftp.Driver.C15
 import Sftp.Driver.C02
+import Sftp.Driver.C18
+import Sftp.Driver.C11
+import Sftp.Driver.ClientConn
 /-
   `sftpmodel`: line-protocol driver for the executable models.
   One case per input line (`op arg…`), one output line per case.
@@ -13,7 +16,8 @@ open Sftp
 
 def allOps : List (String × (List String → String)) :=
   Sftp.Driver.C17.ops ++ Sftp.Driver.C09.ops ++ Sftp.Driver.C10Path.ops ++ Sftp.Driver.Codec.ops ++
-  Sftp.Driver.C16.ops ++ Sftp.Driver.C15.ops ++ Sftp.Driver.C02.ops
+  Sftp.Driver.C16.ops ++ Sftp.Driver.C15.ops ++ Sftp.Driver.C02.ops ++
+  Sftp.Driver.C18.ops ++ Sftp.Driver.C11.ops ++ Sftp.Driver.ClientConn.ops
 
 def step (line : String) : String :=
   match (line.trimAscii.toString.splitOn " ").filter (· ≠ "") with
